@@ -15,7 +15,7 @@ import z3
 from pyvc import builtins_model as B
 from pyvc.loops import LoopSpec
 from pyvc.theory import Theory
-from pyvc.values import ClassRef, Obj, PyFunc, Unsupported, fresh_const, fresh_int, to_z3
+from pyvc.values import ClassRef, Obj, PyFunc, Unsupported, Value, fresh_const, fresh_int, to_z3
 from theories import elem as E
 
 TZ = 'furax.operators.toeplitz'
@@ -101,7 +101,8 @@ def build(ck):
                    'arrays are non-empty (n >= 1, K >= 1, batch sizes >= 1)')
     ck.assume_note('C09: strings that are not legal method names are represented by "overlap_add" and "bogus" (the '
                    'constructor raises at its first test for any such string, before any other use of it)')
-    ck.trust('lemma:tap-reindex SUM_c T[i,c] x[c] = SUM_{j<2K-1} band[|j-(K-1)|] xhat[i+(K-1)-j] (finite re-indexing)',
+    ck.trust('lemma:LA8 DFT convolution theorem: ifft(fft(a) * fft(k, N)).real is the circular convolution of length N',
+             'lemma:tap-reindex SUM_c T[i,c] x[c] = SUM_{j<2K-1} band[|j-(K-1)|] xhat[i+(K-1)-j] (finite re-indexing)',
              'lemma:tap-map-equality two filtered signals with equal (coefficient, source) per tap are equal')
 
     # ------------------------------------------------------------------ __init__
@@ -195,4 +196,251 @@ def build(ck):
 
 
 def build2(ck, T):
-    pass
+    P = ck.P
+
+    # ------------------------------------------------------------------ _apply_overlap_save
+    def overlap_save(S):
+        S.oracle = {'name': 'methods', 'method': 'overlap_save'}
+        R = Row(S)
+        N = S.int('fft_size')
+        # class invariant established by the constructor (scenario `init`): fft_size admissible, i.e. >= 2K-1
+        S.assume(N >= 2 * R.K - 1)
+        # finding (b): y = jnp.zeros(l + x_padding_end) has the default float dtype
+        bad = S.run.branch(z3.And(E.X64, R.xdt == E.F32))
+        S.finding = F_X64 if bad else None
+        if bad:
+            S.oracle = {'name': 'finding_x64_float32'}
+        step = N - 2 * (R.K - 1)
+
+        def F(interp, k, init):
+            """functional loop invariant: after k blocks, y[t] = (T x in tap form, shifted by K-1) for t < k*step,
+            and 0 beyond; length and dtype are those of the initial carry"""
+            lim = to_z3(k) * step
+
+            def tap(t, j):
+                done = to_z3(t) < lim
+                return z3.If(done, R.kern(j), E.R0), z3.If(done, R.xhat(to_z3(t) - to_z3(j)), E.R0)
+            return E.Arr(init.length, init.dtype, ntaps=2 * R.K - 1, tap=tap)
+        T.fori_invariants['SymmetricBandToeplitzOperator._apply_overlap_save.func'] = F
+        o = S.new('SymmetricBandToeplitzOperator', method='overlap_save', fft_size=N)
+        out = S.call(S.I.getattr(o, '_apply_overlap_save'), [R.x, R.band])
+        if no_exception(S, out, finding=S.finding):
+            check_filtered(S, R, out.value, finding=S.finding)
+    ck.explore(f'{CLS}._apply_overlap_save', overlap_save, T)
+
+
+# ====================================================================== dense matrix, mv wiring, as_matrix
+DENSE = f'{TZ}.dense_symmetric_band_toeplitz'
+
+
+def dense_contract(interp, fi, args, kwargs):
+    """callee contract of dense_symmetric_band_toeplitz(n, band), as proved in scenario `dense` below:
+    requires n >= 1 and a non-empty 1-D band; returns the n x n matrix T[r, c] = band[|r-c|] if |r-c| < len(band)
+    else 0, with the band's dtype"""
+    n, band = args
+    if not isinstance(band, E.Arr) or band.kind != 'plain':
+        raise Unsupported('dense_symmetric_band_toeplitz contract: band is not a plain 1-D array')
+    E.ob(interp, 'pre', 'dense-toeplitz-requires', z3.And(to_z3(n) >= 1, E.zi(band.length) >= 1))
+    K = E.zi(band.length)
+
+    def entry(r, c):
+        d = z3.simplify(zabs(to_z3(r) - to_z3(c)))
+        return z3.If(d < K, band.elem(d), E.R0)
+    return E.Matrix(n, n, entry, band.dtype, note=('toeplitz', n, band))
+
+
+class SDS(Value):
+    """a ShapeDtypeStruct: batch shape + (n,), dtype"""
+
+    def __init__(self, bshape, n, dtype):
+        self.bshape, self.n, self.dtype = bshape, n, dtype
+
+    def py_getattr(self, interp, name):
+        if name == 'shape':
+            return E.ShapeV(self.bshape, (self.n,))
+        if name == 'dtype':
+            return self.dtype
+        raise Unsupported(f'ShapeDtypeStruct.{name}')
+
+
+def build3(ck, T):
+    P = ck.P
+
+    # ------------------------------------------------------------------ dense_symmetric_band_toeplitz
+    def dense(S):
+        S.oracle = {'name': 'methods', 'method': 'dense'}
+        R = Row(S)
+        bw = R.K - 1
+
+        def F(k, proto):
+            k = z3.simplify(to_z3(k))
+
+            def rc(r, c, w):
+                if not z3.eq(z3.simplify(to_z3(w)), R.n):
+                    raise Unsupported('closed-form flat array viewed with a width other than n')
+                d = to_z3(c) - to_z3(r)
+                return z3.If(z3.And(-bw <= d, d < -bw + k), R.ba[z3.simplify(zabs(d))], E.R0)
+            a = E.Arr(proto.length, proto.dtype, elem_rc=rc)
+            a.closed = k
+            return a
+
+        def invariant(L):
+            """after k diagonals (j = -(K-1) .. -(K-1)+k-1): output[r*n+c] = band[|c-r|] if c-r is one of them, else 0"""
+            out = L.var('output')
+            if getattr(out, 'closed', None) is not None and z3.eq(out.closed, z3.simplify(to_z3(L.k))):
+                return True
+            if not isinstance(out, E.Arr):
+                return False
+            return z3.And(*[g for _, g in E.arr_eq_goals(out, F(L.k, L.old('output')), rc=(R.n, R.n))])
+
+        spec = LoopSpec(invariant, lambda L: L.set('output', F(L.k, L.old('output'))))
+        S.I.loop_specs[(DENSE, 0)] = spec
+        out = S.call(S.func(DENSE), [R.n, R.band])
+        if not no_exception(S, out):
+            return
+        M = out.value
+        if not isinstance(M, E.Matrix):
+            S.oblige('post', False, tag='returns-a-matrix')
+            return
+        r, c = fresh_int('r'), fresh_int('c')
+        S.inputs['r'], S.inputs['c'] = r, c
+        rng = z3.And(0 <= r, r < R.n, 0 <= c, c < R.n)
+        S.oblige('post', z3.And(E.zi(M.nrows) == R.n, E.zi(M.ncols) == R.n), tag='shape-is-(n,n)')
+        S.oblige('post', M.dtype == R.xdt, tag='dtype-is-band-dtype')
+        S.oblige('post', z3.Implies(rng, M.entry(r, c) == R.T(r, c)), tag='T[r,c]-is-band[|r-c|]-inside-the-band-else-0')
+        S.oblige('post', z3.Implies(rng, M.entry(r, c) == M.entry(c, r)), tag='T-is-symmetric')
+    ck.explore(DENSE, dense, T)
+
+    contracts = {DENSE: dense_contract}
+
+    # ------------------------------------------------------------------ _apply_dense
+    def apply_dense(S):
+        S.oracle = {'name': 'methods', 'method': 'dense'}
+        R = Row(S)
+        o = S.new('SymmetricBandToeplitzOperator', method='dense', fft_size=None)
+        out = S.call(S.I.getattr(o, '_apply_dense'), [R.x, R.band])
+        if not no_exception(S, out):
+            return
+        y = out.value
+        if not (isinstance(y, E.Arr) and y.kind == 'filt'):
+            S.oblige('post', False, tag='returns-a-matrix-vector-product')
+            return
+        i, c = fresh_int('i'), fresh_int('c')
+        S.inputs['i'], S.inputs['c'] = i, c
+        rng = z3.And(0 <= i, i < R.n, 0 <= c, c < R.n)
+        coef, src = y.tap(i, c)
+        S.oblige('post', E.zi(y.length) == R.n, tag='output-length-is-input-length')
+        S.oblige('post', y.dtype == R.xdt, tag='output-dtype-is-input-dtype')
+        S.oblige('post', E.zi(y.ntaps) == R.n, tag='sum-over-the-n-columns')
+        S.oblige('post', z3.Implies(rng, coef == R.T(i, c)), tag='coefficient-of-x[c]-in-y[i]-is-T[i,c]')
+        S.oblige('post', z3.Implies(rng, src == R.xa[c]), tag='source-is-x[c]')
+    ck.explore(f'{CLS}._apply_dense', apply_dense, T, contracts=contracts)
+
+    # ------------------------------------------------------------------ mv: dispatch + per-row vectorisation
+    def marker(method):
+        def contract(interp, fi, args, kwargs):
+            """callee contract of _apply_<method>(x, band) (proved in the kernel scenarios): a 1-D array with x's
+            length and dtype, equal to T(band) x.  Represented by a provenance marker.  overlap_save: TypeError
+            in the class of finding (b)."""
+            _self, x, band = args
+            if method == 'overlap_save' and interp.run.branch(z3.And(E.X64, x.dtype == E.F32)):
+                interp.raise_('TypeError', 'finding (b)')
+            return E.Arr(x.length, x.dtype, note=('applied', method, x, band))
+        return contract
+    mv_contracts = {f'{CLS}._apply_{m}': marker(m) for m in ('dense', 'direct', 'fft', 'overlap_save', 'overlap_add')}
+
+    def batch_inputs(S, R):
+        xs, bs = z3.Const('x_batch_shape', E.BShape), z3.Const('band_batch_shape', E.BShape)
+        b0 = z3.Const('b', E.BShape)       # generic batch index (opaque token)
+        for a in E.bshape_axioms():
+            S.assume(a)
+        S.assume(z3.And(E.b_rank(xs) >= 0, E.b_rank(bs) >= 0, E.b_size(xs) >= 1, E.b_size(bs) >= 1))
+        S.assume(E.b_cast(xs, bs) == xs)    # requires: the bands' batch shape broadcasts to the input's
+        return xs, bs, b0
+
+    def mv(S):
+        method = ('dense', 'direct', 'fft', 'overlap_save')[S.choose(4)]
+        S.oracle = {'name': 'methods', 'method': method}
+        R = Row(S)
+        xs, bs, b0 = batch_inputs(S, R)
+        bad = method == 'overlap_save' and S.run.branch(z3.And(E.X64, R.xdt == E.F32))
+        S.finding = F_X64 if bad else None
+        if bad:
+            S.oracle = {'name': 'finding_x64_float32'}
+        N = S.int('fft_size') if method == 'overlap_save' else None
+        x = E.Batched(xs, R.x, b0)
+        band = E.Batched(bs, R.band, b0)
+        o = S.new('SymmetricBandToeplitzOperator', method=method, fft_size=N, band_values=band,
+                  _in_structure=SDS(xs, R.n, R.xdt))
+        out = S.call(S.I.getattr(o, 'mv'), [x])
+        if not no_exception(S, out, finding=S.finding):
+            return
+        y = out.value
+        ok = isinstance(y, E.Batched) and isinstance(y.core, E.Arr) and y.core.note is not None
+        S.oblige('post', bool(ok), tag='vectorised-application', finding=S.finding)
+        if not ok:
+            return
+        kind, m2, xr, br = y.core.note
+        S.oblige('post', m2 == method and xr is R.x and br is R.band and z3.eq(y.bidx, b0),
+                 tag='row-b-of-output-is-_apply_<method>(row-b-of-x,row-b-of-band)', finding=S.finding)
+        S.oblige('post', y.bshape == xs, tag='output-batch-shape-is-input-batch-shape', finding=S.finding)
+        S.oblige('post', z3.And(E.zi(y.core.length) == R.n, y.core.dtype == R.xdt), tag='output-row-length-and-dtype',
+                 finding=S.finding)
+    ck.explore(f'{CLS}.mv', mv, T, contracts=mv_contracts)
+
+    # ------------------------------------------------------------------ as_matrix
+    def as_matrix(S):
+        S.oracle = {'name': 'methods', 'method': 'dense'}
+        R = Row(S)
+        xs, bs, b0 = batch_inputs(S, R)
+        band = E.Batched(bs, R.band, b0)
+        o = S.new('SymmetricBandToeplitzOperator', method='dense', fft_size=None, band_values=band,
+                  _in_structure=SDS(xs, R.n, R.xdt))
+        out = S.call(S.I.getattr(o, 'as_matrix'), [])
+        if not no_exception(S, out):
+            return
+        M = out.value
+        if isinstance(M, E.BlockDiag):
+            blocks = M.family.batched
+            S.oblige('post', E.b_rank(xs) >= 1, tag='block-diagonal-form-only-for-batched-input')
+            S.oblige('post', blocks.bshape == E.b_flat(xs), tag='one-block-per-batch-row-in-row-major-order')
+        elif isinstance(M, E.Batched):
+            blocks = M
+            S.oblige('post', z3.And(E.b_rank(xs) == 0, blocks.bshape == xs), tag='single-block-for-unbatched-input')
+        else:
+            S.oblige('post', False, tag='returns-a-(block-diagonal)-matrix')
+            return
+        core = blocks.core
+        ok = isinstance(core, E.Matrix) and core.note is not None and core.note[0] == 'toeplitz'
+        S.oblige('post', bool(ok), tag='blocks-are-dense-band-toeplitz-matrices')
+        if ok:
+            _, n2, b2 = core.note
+            S.oblige('post', z3.And(to_z3(n2) == R.n) if not isinstance(n2, bool) else False, tag='block-size-is-n')
+            S.oblige('post', b2 is R.band and z3.eq(blocks.bidx, b0), tag='block-b-is-T(row-b-of-band)')
+            S.oblige('post', core.dtype == R.xdt, tag='dtype')
+    ck.explore(f'{CLS}.as_matrix', as_matrix, T, contracts=contracts)
+
+    # ------------------------------------------------------------------ @symmetric wiring: transpose is self
+    def symmetric_wiring(S):
+        ci = P.cls('SymmetricBandToeplitzOperator')
+        import ast as _ast
+        decs = [_ast.unparse(d) for d in ci.decorators]
+        S.oblige('post', 'symmetric' in decs, tag='class-is-decorated-@symmetric')
+        out = S.call(S.func('furax._base.core.symmetric'), [ClassRef(ci)])
+        if not no_exception(S, out):
+            return
+        o = S.new('SymmetricBandToeplitzOperator', _in_structure=object())
+        t = S.call(S.I.getattr(o, 'transpose'), [])
+        S.oblige('post', t.normal and t.value is o, tag='transpose-returns-self')
+        so = S.call(S.I.getattr(o, 'out_structure'), [])
+        S.oblige('post', so.normal and so.value is o.fields['_in_structure'], tag='out-structure-is-in-structure')
+    T.externals['lineax.is_symmetric.register'] = lambda interp, cls: PyFunc(lambda interp, f: f, 'register')
+    ck.explore('furax._base.core.symmetric', symmetric_wiring, T)
+
+
+_build1 = build
+
+
+def build(ck):          # noqa: F811
+    _build1(ck)
+    build3(ck, theory())
